@@ -112,7 +112,10 @@ static void htp_urlenp_add_field_piece(htp_urlenp_t *urlenp, const unsigned char
                         htp_tx_urldecode_params_inplace(urlenp->tx, name);
                     }
 
-                    htp_table_addn(urlenp->params, name, value);
+                    if (htp_table_addn(urlenp->params, name, value) != HTP_OK) {
+                        bstr_free(name);
+                        bstr_free(value);
+                    }
 
                     urlenp->_name = NULL;
 
@@ -122,7 +125,9 @@ static void htp_urlenp_add_field_piece(htp_urlenp_t *urlenp, const unsigned char
                     #endif
                 }
             } else {                
-                // This key will possibly be followed by a value, so keep it for later.
+                // This key will possibly be followed by a value, so keep it for later. A key
+                // may still be around if the value that followed it could not be allocated.
+                bstr_free(urlenp->_name);
                 urlenp->_name = field;
             }
         } else {            
@@ -153,7 +158,10 @@ static void htp_urlenp_add_field_piece(htp_urlenp_t *urlenp, const unsigned char
                 htp_tx_urldecode_params_inplace(urlenp->tx, value);
             }
 
-            htp_table_addn(urlenp->params, name, value);           
+            if (htp_table_addn(urlenp->params, name, value) != HTP_OK) {
+                bstr_free(name);
+                bstr_free(value);
+            }
 
             #ifdef HTP_DEBUG
             fprint_raw_data(stderr, "NAME", bstr_ptr(name), bstr_len(name));
